@@ -1,0 +1,5 @@
+//go:build !verif
+
+package spiffe
+
+func verifPoint(string, ...any) {}
